@@ -64,9 +64,17 @@ def GoList.setList (g : GoList) (e : Nat) (b : Bool) : GoList :=
 def GoList.newElem (g : GoList) (v : Tx) : GoList :=
   { g with alloc := g.alloc + 1, heap := upd g.heap (g.alloc + 1) { blank with value := v } }
 
-/-- `list.New()` : `root.next = &root; root.prev = &root; len = 0` -/
-def new : GoList :=
-  { heap := upd (fun _ => blank) 0 { blank with next := some 0, prev := some 0 }, alloc := 0, len := 0, panicked := false }
+/-- `l.Init()` : `l.root.next = &l.root; l.root.prev = &l.root; l.len = 0` -/
+def GoList.init (g : GoList) : GoList :=
+  let g := g.setNext (some 0) (some 0)
+  let g := g.setPrev (some 0) (some 0)
+  { g with len := 0 }
+
+/-- `l.lazyInit()` : `if l.root.next == nil { l.Init() }` -/
+def GoList.lazyInit (g : GoList) : GoList := if (g.heap 0).next = none then g.init else g
+
+/-- `list.New()` = `new(List).Init()` -/
+def GoList.new : GoList := GoList.init { heap := fun _ => blank, alloc := 0, len := 0, panicked := false }
 
 /-- `l.Len()` -/
 def GoList.Len (g : GoList) : Nat := g.len
@@ -111,8 +119,8 @@ def GoList.removeRaw (g : GoList) (e : Nat) : GoList :=
 def GoList.remove (g : GoList) (e : Nat) : GoList :=
   if (g.heap e).inList then g.removeRaw e else g
 
-/-- `l.PushFront(v)` (`lazyInit` is the identity on a list made by `list.New()`) -/
-def GoList.pushFront (g : GoList) (v : Tx) : GoList × Nat := g.insertValue v 0
+/-- `l.PushFront(v)` : `l.lazyInit(); return l.insertValue(v, &l.root)` -/
+def GoList.pushFront (g : GoList) (v : Tx) : GoList × Nat := g.lazyInit.insertValue v 0
 
 /-- `l.InsertAfter(v, mark)` : `if mark.list != l { return nil }; return l.insertValue(v, mark)` -/
 def GoList.insertAfter (g : GoList) (v : Tx) (mark : Nat) : GoList × Option Nat :=
@@ -254,22 +262,6 @@ def getLoopBwd (g : GoList) : Nat → Option Nat → List Tx → List Tx
 
 def SenderList.getTxs (s : SenderList) : List Tx := getLoopFwd s.items s.items.Len s.items.front []
 def SenderList.getTxsReversed (s : SenderList) : List Tx := getLoopBwd s.items s.items.Len s.items.back []
-
-/-! quick sanity run -/
-def mkTx (h : UInt8) (nonce price size : Nat) : Tx := ⟨[h], [1], nonce, price, 50000, size, 0, 0, []⟩
-
-def demoCfg : Config := ⟨true, 1000000, 250, 1000, 100, 1⟩
-
-def demo3 : SenderList :=
-  ((((SenderList.new.insert (mkTx 1 1 10 100)).1.insert (mkTx 3 3 10 100)).1.insert (mkTx 2 2 10 100)).1)
-
-#eval demo3.items.toList.map (·.nonce)
-#eval demo3.items.toIds
-#eval (demo3.getTxsReversed).map (·.nonce)
-#eval ((demo3.addTx demoCfg (mkTx 4 4 10 100)).1.items.toList.map (·.nonce), (demo3.addTx demoCfg (mkTx 4 4 10 100)).2)
-#eval ((demo3.removeLowerOrEqual 2).1.items.toList.map (·.nonce), (demo3.removeLowerOrEqual 2).2)
-#eval ((demo3.removeHigherOrEqual 2).1.items.toList.map (·.nonce), (demo3.removeHigherOrEqual 2).2)
-
 
 /-! ## Part 3 — the representation invariant -/
 
@@ -505,8 +497,8 @@ structure Rep (g : GoList) (cs : List (Nat × Tx)) : Prop where
 
 theorem rep_new : Rep GoList.new [] := by
   refine ⟨rfl, by simp, by simp, ?_, ?_, by simp, rfl⟩
-  · simp [Path, Link, GoList.new, upd]
-  · intro i; simp [GoList.new, upd, blank]; split <;> rfl
+  · simp [Path, Link, GoList.new, GoList.init]
+  · intro i; simp [GoList.new, GoList.init, blank]
 
 theorem rep_insert_core {g : GoList} {pre post : List (Nat × Tx)} (h : Rep g (pre ++ post)) (v : Tx)
     {X : List Nat} {a : Nat} (ha : 0 :: ids pre = X ++ [a]) :
@@ -787,16 +779,31 @@ theorem wf_next_prev {g : GoList} (h : WF g) (e : Nat) (he : (g.heap e).inList =
       have := ((path_append g _ c.1 _).1 hp).2.1
       exact ⟨c.1, this.2, this.1, Or.inr ((hr.inl c.1).2 (by simp [ids]))⟩
 
+/-- `lazyInit` does nothing on a well-formed list (`root.next` is never nil) -/
+theorem rep_lazyInit {g : GoList} {cs : List (Nat × Tx)} (h : Rep g cs) : g.lazyInit = g := by
+  have hp := h.path
+  obtain ⟨x, Y, hx⟩ : ∃ x Y, ids cs ++ [0] = x :: Y := by
+    cases cs with
+    | nil => exact ⟨0, [], rfl⟩
+    | cons c r => exact ⟨c.1, ids r ++ [0], rfl⟩
+  have : 0 :: ids cs ++ [0] = [] ++ 0 :: x :: Y := by simp [← hx]
+  rw [this] at hp
+  simp [GoList.lazyInit, path_next hp]
+
+theorem pushFront_eq {g : GoList} (h : WF g) (v : Tx) : g.pushFront v = g.insertValue v 0 := by
+  simp [GoList.pushFront, rep_lazyInit h]
+
 /-- `PushFront` : well-formedness is kept, the new (fresh) element is in front -/
 theorem wf_pushFront {g : GoList} (h : WF g) (v : Tx) :
     WF (g.pushFront v).1 ∧ (g.pushFront v).1.cells = ((g.pushFront v).2, v) :: g.cells
       ∧ (g.pushFront v).2 ∉ g.toIds ∧ (g.pushFront v).2 ≠ 0 := by
   have hr : Rep g ([] ++ g.cells) := h
   have h' := rep_insert_core (X := []) (a := 0) hr v rfl
-  refine ⟨WF.of_rep h', rep_cells h', ?_, by simp [GoList.pushFront, insertValue_snd]⟩
+  rw [pushFront_eq h]
+  refine ⟨WF.of_rep h', rep_cells h', ?_, by simp [insertValue_snd]⟩
   intro hmem
   have := Rep.bound h _ hmem
-  simp [GoList.pushFront, insertValue_snd] at this
+  simp [insertValue_snd] at this
   omega
 
 theorem toList_pushFront {g : GoList} (h : WF g) (v : Tx) : (g.pushFront v).1.toList = v :: g.toList := by
@@ -1431,5 +1438,72 @@ theorem getTxsReversed_eq {s : SenderList} (h : WF s.items) :
     rw [hb, rep_getLoopBwd _ [] n [] hr (by simp; rw [← (Rep.len h)]; exact hn)]
     simp [GoList.toList]
   exact ⟨key _ (Nat.le_refl _), key⟩
+
+
+/-! ## Non-vacuity: concrete runs of the transcribed code -/
+
+def mkTx (h : UInt8) (nonce price size : Nat) : Tx := ⟨[h], [1], nonce, price, 50000, size, 0, 0, []⟩
+
+/-- 250 bytes per sender, 100 transactions per sender -/
+def demoCfg : Config := ⟨true, 1000000, 250, 1000, 100, 1⟩
+
+/-- nonces 1, 3, 2 inserted in this order (elements 1, 2, 3) : content `[1, 2, 3]` held by elements `[1, 3, 2]` -/
+def demo3 : SenderList :=
+  (((SenderList.new.insert (mkTx 1 1 10 100)).1.insert (mkTx 3 3 10 100)).1.insert (mkTx 2 2 10 100)).1
+
+/-- the hypotheses `SWF`/`WF` of the theorems are satisfiable: every state built by the code satisfies them -/
+theorem swf_demo3 : SWF demo3 :=
+  (toList_insert (toList_insert (toList_insert swf_new _).2.2 _).2.2 _).2.2
+
+example : demo3.items.toList.map (·.nonce) = [1, 2, 3] ∧ demo3.items.toIds = [1, 3, 2] ∧ demo3.items.Len = 3
+    ∧ demo3.totalBytes = 300 := by decide
+
+/-- `PushFront` (nonce 0 goes to the front), `InsertAfter` in the middle (nonce 2 above), duplicate refused -/
+example : ((demo3.insert (mkTx 0 0 10 100)).1.items.toList.map (·.nonce) = [0, 1, 2, 3])
+    ∧ (demo3.insert (mkTx 2 2 10 100)).2 = false
+    ∧ insertTx (mkTx 2 2 10 100) demo3.items.toList = none
+    ∧ (insertTx (mkTx 0 0 10 100) demo3.items.toList).map (·.map (·.nonce)) = some [0, 1, 2, 3] := by decide
+
+/-- instance of the hypothesis of `wf_insertAfter` / `wf_remove` (mark / element 3 in the middle) and their effect -/
+example : demo3.items.cells = [(1, mkTx 1 1 10 100)] ++ (3, mkTx 2 2 10 100) :: [(2, mkTx 3 3 10 100)]
+    ∧ (demo3.items.insertAfter (mkTx 9 9 9 9) 3).1.toList.map (·.nonce) = [1, 2, 9, 3]
+    ∧ (demo3.items.remove 3).toList.map (·.nonce) = [1, 3]
+    ∧ (demo3.items.remove 3).toIds = [1, 2] := by decide
+
+/-- the library's guards: a removed element has `next = prev = list = nil`; `Remove` again and `InsertAfter` with it
+    as mark do nothing; its `Prev()`/`Next()` are nil -/
+example : ((demo3.items.remove 3).remove 3).toList = (demo3.items.remove 3).toList
+    ∧ ((demo3.items.remove 3).insertAfter (mkTx 9 9 9 9) 3).2 = none
+    ∧ ((demo3.items.remove 3).insertAfter (mkTx 9 9 9 9) 3).1.toList = (demo3.items.remove 3).toList
+    ∧ (demo3.items.remove 3).prev 3 = none ∧ (demo3.items.remove 3).next 3 = none
+    ∧ demo3.items.prev 3 = some 1 ∧ demo3.items.next 3 = some 2 := by decide
+
+/-- F3, concretely: the 4th transaction brings the sender to 400 bytes against a limit of 250, so TWO drops would be
+    needed; the transcribed `AddTx` (library + loop) drops exactly ONE (the last), the list stays over the limit,
+    and this is what `trim1` says. -/
+example :
+    let r := demo3.addTx demoCfg (mkTx 4 4 10 100)
+    r.1.items.toList.map (·.nonce) = [1, 2, 3] ∧ r.2 = (true, [[4]])
+    ∧ senderExceeded demoCfg r.1.items.toList = true
+    ∧ (insertTx (mkTx 4 4 10 100) demo3.items.toList).map (fun l => (trim1 demoCfg l).1.map (·.nonce)) = some [1, 2, 3]
+    ∧ (insertTx (mkTx 4 4 10 100) demo3.items.toList).map (fun l => (trim1 demoCfg l).2.map (·.hash)) = some [[4]] := by
+  decide
+
+/-- the same on a 4-element list directly: `applySizeConstraints` with a limit two drops away -/
+def demo4 : SenderList := (demo3.insert (mkTx 4 4 10 100)).1
+
+example : demo4.items.toList.map (·.nonce) = [1, 2, 3, 4] ∧ demo4.totalBytes = 400
+    ∧ (demo4.applySizeConstraints demoCfg).1.items.toList.map (·.nonce) = [1, 2, 3]
+    ∧ (demo4.applySizeConstraints demoCfg).2 = [[4]]
+    ∧ (demo4.applySizeConstraints demoCfg).1.isCapacityExceeded demoCfg = true
+    ∧ (trim1 demoCfg demo4.items.toList).1.map (·.nonce) = [1, 2, 3]
+    ∧ (trim1 demoCfg demo4.items.toList).2.map (·.hash) = [[4]] := by decide
+
+/-- the two nonce-directed removals and the two read-outs -/
+example : (demo4.removeLowerOrEqual 2).1.items.toList.map (·.nonce) = [3, 4] ∧ (demo4.removeLowerOrEqual 2).2 = [[1], [2]]
+    ∧ (demo4.removeHigherOrEqual 2).1.items.toList.map (·.nonce) = [1] ∧ (demo4.removeHigherOrEqual 2).2 = [[4], [3], [2]]
+    ∧ (dropLowerOrEqual 2 demo4.items.toList).map (·.nonce) = [3, 4]
+    ∧ (keepLower 2 demo4.items.toList).map (·.nonce) = [1]
+    ∧ demo4.getTxs.map (·.nonce) = [1, 2, 3, 4] ∧ demo4.getTxsReversed.map (·.nonce) = [4, 3, 2, 1] := by decide
 
 end SV.TxCache.GoList
